@@ -1,10 +1,10 @@
 (* Extraction of the executable deciders to OCaml (ExtrOcamlBasic only:
    bool, option, list, pair, unit, sumbool; nat, Z stay inductive). *)
-From YV Require Import Prelude EarleySpec Recognizer SimpleRecovery Translate FullInfo Dag TreeMem Prune Generated Api Containers ReadGrammar Description.
+From YV Require Import Prelude EarleySpec Recognizer FirstFollow SimpleRecovery Translate FullInfo Dag TreeMem Prune Generated Api Containers ReadGrammar Description.
 Require Extraction.
 Require Import ExtrOcamlBasic.
 Extraction Language OCaml.
 Set Extraction Optimize.
 Cd "../ocaml/extracted".
-Extraction "Core.ml" full min_simple_cost free_counts desc_model shift_count all_translations_a read_model defect_b well_formed_b create hrun vcreate vrun ocreate orun mrun new_obj strip recognize all_translations denote prune_denote acyclic_b altflat_b has_alt_b uncum tcost cum.
+Extraction "Core.ml" closed_tbl full min_simple_cost free_counts desc_model shift_count all_translations_a read_model defect_b well_formed_b create hrun vcreate vrun ocreate orun mrun new_obj strip recognize all_translations denote prune_denote acyclic_b altflat_b has_alt_b uncum tcost cum.
 Cd "../../coq".
